@@ -203,6 +203,9 @@ class Evaluator:
             if "cv" in n:
                 return int(n["cv"])
             key = n["name"]
+            al_ = getattr(self, "alias", None)
+            if al_ and key in al_ and al_[key] in self.env:
+                return self.env[al_[key]]
             if key in self.env:
                 return self.env[key]
             if n.get("dk") in ("Function", "CXXMethod"):
@@ -374,6 +377,12 @@ class Evaluator:
             if nm in self.calls:
                 args = []
                 ob_ = f.strip(f.node(n["obj"])) if (k == "CXXMemberCallExpr" and n.get("obj") is not None) else None
+                self.last_obj_key = None
+                if ob_ is not None and ob_["k"] != "CXXThisExpr":
+                    try:
+                        self.last_obj_key = self.lkey(f.node(n["obj"]))      # for hooks that mutate the receiver
+                    except Unknown:
+                        pass
                 if ob_ is not None and ob_["k"] != "CXXThisExpr" and getattr(self, "pass_object", False):
                     try:
                         # pass_object == "key": the designator of the object (table_[3]) rather than its value
@@ -698,14 +707,30 @@ class Evaluator:
                         if d.get("init") is not None:
                             i0_ = f.strip(d["init"])
                             if i0_ is not None and i0_["k"] == "InitListExpr":
-                                ext_ = (self.tinfo(d.get("ct")) or {}).get("extent")
-                                els_ = i0_.get("c", [])
-                                for j_ in range(ext_ if isinstance(ext_, int) and ext_ < 4096 else len(els_)):
-                                    try:
-                                        self.env["%s[%d]" % (d["name"], j_)] = self.ev(els_[j_]) if j_ < len(els_) else 0
-                                    except Unknown:
-                                        self.env.pop("%s[%d]" % (d["name"], j_), None)
+                                def fill(prefix, lst, ext_):
+                                    els_ = lst.get("c", [])
+                                    for j_ in range(ext_ if isinstance(ext_, int) and ext_ < 4096 else len(els_)):
+                                        el_ = f.strip(els_[j_]) if j_ < len(els_) else None
+                                        key_ = "%s[%d]" % (prefix, j_)
+                                        if el_ is not None and el_["k"] == "InitListExpr":
+                                            fill(key_, el_, None)       # nested aggregate (rows of a table)
+                                            continue
+                                        try:
+                                            self.env[key_] = self.ev(els_[j_]) if j_ < len(els_) else 0
+                                        except Unknown:
+                                            self.env.pop(key_, None)
+                                fill(d["name"], i0_, (self.tinfo(d.get("ct")) or {}).get("extent"))
                                 continue
+                            if (d.get("ct") or "").rstrip().endswith("&") and not (d.get("ct") or "").startswith("const "):
+                                # a local reference to an object or variable: an alias of that lvalue
+                                try:
+                                    tgt_ = self.lkey(d["init"])
+                                    if not hasattr(self, "alias") or self.alias is None:
+                                        self.alias = {}
+                                    self.alias[d["name"]] = tgt_
+                                    continue
+                                except Unknown:
+                                    pass
                             try:
                                 self.env[d["name"]] = self.ev(d["init"])
                             except Thrown as t_:
